@@ -59,13 +59,16 @@ def runs(tier):
             else:
                 for fam in FAMILIES:
                     sw = fam.endswith(".swaps")
-                    add(z2, ["--P", 2, "--R", 3, "--C", 2, "--only", fam, "--budget", 1500, "--validate", 200] +
-                        ([] if sw else ["--coefs", "0,1,-1,2"]), 2, 2400)
-                    add(zp, ["--P", 3, "--R", 2, "--C", 2, "--coefs", "0,1,2,-1,4", "--only", fam, "--budget", 1500,
-                             "--validate", 200], 2, 2400)
+                    # merge validation and the extra coefficients (-1, 2, 4: reduced by the facade) go with the shapes
+                    # whose state space is small; the shapes with swaps and rows dominate the cost of the tier
+                    add(z2, ["--P", 2, "--R", 3, "--C", 2, "--only", fam, "--budget", 1500] +
+                        ([] if sw else ["--coefs", "0,1,-1,2", "--validate", 200]), 2, 2400)
+                    add(zp, ["--P", 3, "--R", 2, "--C", 2, "--only", fam, "--budget", 1500] +
+                        ([] if sw else ["--coefs", "0,1,2,-1,4", "--validate", 200]), 2, 2400)
                     if not sw:
                         add(z2, ["--P", 2, "--R", 3, "--C", 3, "--only", fam, "--budget", 1500], 2, 2400)
-                        add(zp, ["--P", 3, "--R", 3, "--C", 2, "--only", fam, "--depth", 4, "--budget", 1500], 2, 2400)
+                        add(zp, ["--P", 3, "--R", 3, "--C", 2, "--only", fam, "--depth", 4 if fam == "noswap" else 3,
+                                 "--budget", 1500], 2, 2400)
                         add(zp, ["--P", 5, "--R", 2, "--C", 2, "--coefs", "0,1,2,3,4", "--only", fam, "--depth", 4,
                                  "--budget", 1500], 2, 2400)
     return rs
@@ -101,11 +104,12 @@ def C09():
             "quick": ("Z_2: 3 rows x <=2 columns, all finite histories (closure) for the shapes without swaps and the compressed ones; "
                       "2 rows x <=2 columns closure for the shapes with swaps; Z_3: 2 rows x <=2 columns, coefficients 0,1,2: closure "
                       "without swaps / compressed, depth 3 with swaps; heap columns: 2 rows x <=2 columns, closure over Z_2, depth 3 over Z_3"),
-            "thorough": ("Z_2: 3 rows x <=2 columns closure for every shape (with merge validation; coefficients 0,1,-1,2 for the shapes "
-                         "without swaps / compressed) and 3 rows x <=3 columns for the shapes without swaps / compressed; Z_3: 2 rows x <=2 "
-                         "columns closure for every shape with coefficients 0,1,2,-1,4; 3 rows x <=2 columns depth 4 and Z_5 2 rows x <=2 "
-                         "columns depth 4 without swaps / compressed; heap: Z_2 3x2 depth 5, 2x3 depth 6, Z_3 2x2 depth 5; a universe that "
-                         "does not close inside its time budget is reported as incomplete"),
+            "thorough": ("Z_2: 3 rows x <=2 columns closure for every shape (merge validation and coefficients 0,1,-1,2 for the shapes "
+                         "without swaps / compressed) and 3 rows x <=3 columns closure for the shapes without swaps / compressed; Z_3: 2 rows "
+                         "x <=2 columns closure for every shape (coefficients 0,1,2,-1,4 and merge validation without swaps / compressed); "
+                         "3 rows x <=2 columns depth 4 (compressed: 3) and Z_5 2 rows x <=2 columns depth 4 without swaps / compressed; heap: "
+                         "Z_2 3x2 depth 5, 2x3 depth 6, Z_3 2x2 depth 5; a universe that does not close inside its time budget is reported "
+                         "as incomplete"),
         },
         "assumptions": [
             "documented preconditions only: insert_column(c, i) needs an index with no live column; erase_empty_row needs an empty row; "
